@@ -590,6 +590,89 @@ func FamNamedReturn(t Type, emit func(Gen)) {
 	}
 }
 
+// FamNested: aggregates inside aggregates - arrays of arrays, a struct with an array field, an array of structs, a
+// struct inside a struct - written through every selector path, copied (value semantics) and passed to a function.
+func FamNested(t Type, emit func(Gen)) {
+	a, b := Var{Name: "a"}, Var{Name: "b"}
+	lit := func(v int64) Expr { return Lit{V: v} }
+	ct := func(name string) Expr { return Cast{T: t, X: Var{Name: name}} }
+	// 1. array of arrays
+	row := t
+	row.N = 3
+	mt := ArrayOf(2, row)
+	m := Var{Name: "m"}
+	mij := func(i, j Expr) Expr { return Index{A: Index{A: m, Idx: i}, Idx: j} }
+	fillM := []Stmt{VarDecl{Name: "m", T: mt},
+		For{Var: "i", From: 0, To: 2, Body: []Stmt{For{Var: "j", From: 0, To: 3, Body: []Stmt{
+			Assign{Name: "m", Path: []Sel{{Idx: Var{Name: "i"}}, {Idx: Var{Name: "j"}}}, X: Bin{Op: "+", L: Bin{Op: "+", L: a, R: ct("i")}, R: Bin{Op: "*", L: b, R: ct("j")}}}}}}}}
+	for i := int64(0); i < 2; i++ {
+		for j := int64(0); j < 3; j++ {
+			body := append(append([]Stmt{}, fillM...),
+				Assign{Name: "m", Path: []Sel{{Idx: lit(i)}, {Idx: lit(j)}}, X: Bin{Op: "^", L: a, R: b}},
+				Define{Name: "r", X: Index{A: m, Idx: lit(i)}},
+				Assign{Name: "r", Idx: lit((j + 1) % 3), X: b},
+				Return{X: []Expr{mij(lit(i), lit(j)), mij(lit(i), lit((j+1)%3)), Index{A: Var{Name: "r"}, Idx: lit((j + 1) % 3)}, mij(lit(1-i), lit(j))}})
+			emit(Gen{"nested-array-of-arrays", &Program{Funcs: []Func{mainFn(ab(t), []Type{t, t, t, t}, body)}}})
+		}
+	}
+	// whole row assigned, then summed
+	body := append(append([]Stmt{}, fillM...),
+		Assign{Name: "m", Idx: lit(0), X: Index{A: m, Idx: lit(1)}},
+		Assign{Name: "m", Path: []Sel{{Idx: lit(1)}, {Idx: lit(2)}}, X: a},
+		VarDecl{Name: "s", T: t},
+		For{Var: "i", From: 0, To: 2, Body: []Stmt{For{Var: "j", From: 0, To: 3, Body: []Stmt{
+			Assign{Name: "s", X: Bin{Op: "+", L: Bin{Op: "<<", L: Var{Name: "s"}, R: Lit{V: 1}}, R: mij(Var{Name: "i"}, Var{Name: "j"})}}}}}},
+		Return{X: []Expr{Var{Name: "s"}, mij(lit(0), lit(2))}})
+	emit(Gen{"nested-array-of-arrays", &Program{Funcs: []Func{mainFn(ab(t), []Type{t, t}, body)}}})
+	// 2. struct with an array field
+	vt := t
+	vt.N = 3
+	qt := Type{Name: "Q", Fields: []Type{t, vt, t}, Names: []string{"k", "v", "z"}}
+	q, r := Var{Name: "q"}, Var{Name: "r"}
+	qv := func(x Expr, i int64) Expr { return Index{A: Field{X: x, Name: "v"}, Idx: lit(i)} }
+	for i := int64(0); i < 3; i++ {
+		body := []Stmt{VarDecl{Name: "q", T: qt},
+			Assign{Name: "q", Field: "k", X: a}, Assign{Name: "q", Field: "z", X: b},
+			Assign{Name: "q", Path: []Sel{{Field: "v"}, {Idx: lit(i)}}, X: Bin{Op: "+", L: a, R: b}},
+			Define{Name: "r", X: q},
+			Assign{Name: "r", Path: []Sel{{Field: "v"}, {Idx: lit((i + 1) % 3)}}, X: b},
+			If{Cond: Bin{Op: "<", L: a, R: b}, Then: []Stmt{Assign{Name: "q", Path: []Sel{{Field: "v"}, {Idx: lit(i)}}, X: a}}, Else: []Stmt{Assign{Name: "r", Field: "z", X: a}}},
+			Return{X: []Expr{qv(q, i), qv(r, i), qv(r, (i+1)%3), qv(q, (i+1)%3), Field{X: q, Name: "k"}, Field{X: r, Name: "z"}}}}
+		emit(Gen{"nested-struct-array-field", &Program{Structs: []Type{qt}, Funcs: []Func{mainFn(ab(t), []Type{t, t, t, t, t, t}, body)}}})
+	}
+	// 3. array of structs
+	pt := Type{Name: "P", Fields: []Type{t, t}, Names: []string{"x", "y"}}
+	pst := ArrayOf(2, pt)
+	ps := Var{Name: "ps"}
+	pf := func(i int64, f string) Expr { return Field{X: Index{A: ps, Idx: lit(i)}, Name: f} }
+	for i := int64(0); i < 2; i++ {
+		body := []Stmt{VarDecl{Name: "ps", T: pst},
+			Assign{Name: "ps", Path: []Sel{{Idx: lit(i)}, {Field: "x"}}, X: a},
+			Assign{Name: "ps", Path: []Sel{{Idx: lit(1 - i)}, {Field: "y"}}, X: b},
+			Assign{Name: "ps", Path: []Sel{{Idx: lit(1 - i)}, {Field: "x"}}, X: Bin{Op: "+", L: pf(i, "x"), R: b}},
+			Define{Name: "u", X: Index{A: ps, Idx: lit(1 - i)}},
+			Assign{Name: "u", Field: "x", X: Bin{Op: "^", L: a, R: b}},
+			For{Var: "i", From: 0, To: 2, Body: []Stmt{Assign{Name: "ps", Path: []Sel{{Idx: Var{Name: "i"}}, {Field: "y"}}, X: Bin{Op: "+", L: Field{X: Index{A: ps, Idx: Var{Name: "i"}}, Name: "y"}, R: ct("i")}}}},
+			Return{X: []Expr{pf(0, "x"), pf(0, "y"), pf(1, "x"), pf(1, "y"), Field{X: Var{Name: "u"}, Name: "x"}}}}
+		emit(Gen{"nested-array-of-structs", &Program{Structs: []Type{pt}, Funcs: []Func{mainFn(ab(t), []Type{t, t, t, t, t}, body)}}})
+	}
+	// 4. struct inside a struct, passed to a function that modifies its copy
+	rt := Type{Name: "R", Fields: []Type{pt, t}, Names: []string{"p", "z"}}
+	rp := func(x Expr, f string) Expr { return Field{X: Field{X: x, Name: "p"}, Name: f} }
+	f := Func{Name: "f", Params: []Param{{Name: "w", T: rt}, {Name: "k", T: t}}, Results: []Type{t}, Body: []Stmt{
+		Assign{Name: "w", Path: []Sel{{Field: "p"}, {Field: "y"}}, X: Bin{Op: "+", L: rp(Var{Name: "w"}, "y"), R: Var{Name: "k"}}},
+		Return{X: []Expr{Bin{Op: "^", L: rp(Var{Name: "w"}, "y"), R: Field{X: Var{Name: "w"}, Name: "z"}}}}}}
+	body = []Stmt{VarDecl{Name: "r", T: rt},
+		Assign{Name: "r", Path: []Sel{{Field: "p"}, {Field: "x"}}, X: a},
+		Assign{Name: "r", Field: "z", X: b},
+		Assign{Name: "r", Path: []Sel{{Field: "p"}, {Field: "y"}}, X: Bin{Op: "^", L: rp(r, "x"), R: b}},
+		Define{Name: "g", X: Call{Fn: "f", Args: []Expr{r, a}}},
+		Define{Name: "c", X: Field{X: r, Name: "p"}},
+		Assign{Name: "c", Field: "x", X: b},
+		Return{X: []Expr{rp(r, "x"), rp(r, "y"), Field{X: r, Name: "z"}, Var{Name: "g"}, Field{X: Var{Name: "c"}, Name: "x"}}}}
+	emit(Gen{"nested-struct-in-struct", &Program{Structs: []Type{pt, rt}, Funcs: []Func{f, mainFn(ab(t), []Type{t, t, t, t, t}, body)}}})
+}
+
 // FamCompLit: composite literals - two literals of one type with different (and with equal) elements, a literal
 // modified after another was made from the same constants, literals copied, passed and indexed.
 func FamCompLit(t Type, emit func(Gen)) {
@@ -718,6 +801,7 @@ func Statements(quick bool, emit func(Gen)) {
 		FamArray(t, emit)
 		FamCall(t, emit)
 		FamCompLit(t, emit)
+		FamNested(t, emit)
 		FamNamedReturn(t, emit)
 		FamGlobals(t, emit)
 	}
